@@ -66,8 +66,9 @@ def gen_coarse(R, tier):
     defs = []
     feats = {'coarse'}
     for f in range(nfr):
-        ast = gram.gen_ast(R, names=('A', 'B', 'SC1', 'TC5'), max_nodes=R.choice([3, 6, 10]), min_nodes=1,
-                           p_branch=0.3, p_ring=0.25, p_sym=0.3, max_depth=3, orders=(1, 2, 3, 0))
+        ast = gram.gen_ast(R, names=('A', 'B', 'SC1', 'TC5'), max_nodes=R.choice([3, 6, 10, 14]), min_nodes=1,
+                           p_branch=0.3, p_ring=R.choice([0.25, 0.25, 0.6]), p_sym=R.choice([0.3, 0.6]), max_depth=3,
+                           orders=(1, 2, 3, 0), max_rings_per_node=4, max_open=4)
         try:
             gram.interpret(ast)
         except gram.Invalid:
@@ -86,8 +87,45 @@ def gen_coarse(R, tier):
     return dict(input='{' + ','.join(defs) + '}', mode='fragments', all_atom=False, features=sorted(feats))
 
 
+def gen_coarse_graph(R, tier):
+    """coarse fragments from random (also dense) graphs written by the own base-graph writer: the
+    writer under test then meets many ring markers per node, marker reuse and all bond orders"""
+    import networkx as nx
+    defs = []
+    feats = {'coarse', 'coarse:random_graph'}
+    for f in range(R.choice([1, 1, 2])):
+        n = R.choice([R.randint(2, 5), R.randint(4, 10), R.randint(5, 10)])
+        g = nx.Graph()
+        g.add_nodes_from(range(n))
+        orders = R.choice([(1,), (1, 1, 2, 3, 0), (0, 3, 1), (1, 2, 3, 0), (0, 3)])
+        for i in range(1, n):
+            g.add_edge(R.randrange(i), i, order=R.choice(orders))
+        for _ in range(R.choice([0, 1, 3, 6, 10, 14])):
+            if n < 3:
+                break
+            a, b = R.sample(range(n), 2)
+            if not g.has_edge(a, b):
+                g.add_edge(a, b, order=R.choice(orders))
+        if g.number_of_edges() > n - 1:
+            feats.add('coarse:ring')
+        names = {i: R.choice(['A', 'B', 'SC1', 'TC5']) for i in range(n)}
+        toks = {}
+        has = False
+        for i in range(n):
+            ds = ''.join(rand_desc(R, 3) for _ in range(R.choice([0, 0, 0, 1, 2])))
+            has = has or bool(ds)
+            toks[i] = '[#%s]' % names[i] + ds
+        if not has:
+            toks[0] += '[$]'
+        text = molgen.write_base(R, g, names, orders_sym={0: '.', 1: '', 2: '=', 3: '#', 4: '$'}, tokens=toks)[1:-1]
+        defs.append('#G%d=%s' % (f, text))
+    return dict(input='{' + ','.join(defs) + '}', mode='fragments', all_atom=False, features=sorted(feats))
+
+
 def gen(R, tier):
-    k = R.choice(['atomistic', 'atomistic', 'coarse', 'string', 'string'])
+    k = R.choice(['atomistic', 'atomistic', 'coarse', 'coarse_graph', 'coarse_graph', 'string', 'string'])
+    if k == 'coarse_graph':
+        return gen_coarse_graph(R, tier)
     if k == 'atomistic':
         return gen_atomistic(R, tier)
     if k == 'coarse':
